@@ -629,3 +629,65 @@ def param_defaults(fnode) -> Dict[str, ast.expr]:
         if d is not None:
             out[p.arg] = d
     return out
+
+
+# ---------------------------------------------------------------------- small shared pieces (c42)
+def get_sub(ctx, f) -> Sub:
+    cache = ctx.__dict__.setdefault("_na_d_sub", {})
+    node = f.node if hasattr(f, "node") else f
+    if id(node) not in cache:
+        cache[id(node)] = Sub(ctx, f)
+        if hasattr(f, "key"):
+            ctx.functions_analysed.add(f.key)
+    return cache[id(node)]
+
+
+def top_attr(e: ast.AST) -> Optional[str]:
+    r = getattr_norm(e)
+    return r[1] if r is not None else None
+
+
+def is_attr_of(e: ast.AST, attr: str, root: Optional[str] = None) -> bool:
+    """`<root>.<attr>` (root None: any base)"""
+    r = getattr_norm(e)
+    if r is None or r[1] != attr:
+        return False
+    return root is None or (isinstance(r[0], ast.Name) and r[0].id == root)
+
+
+def is_none_const(e) -> bool:
+    return isinstance(e, ast.Constant) and e.value is None
+
+
+def none_test(t: ast.AST) -> Optional[ast.expr]:
+    """X for the (normalised) atom `X is None`"""
+    if isinstance(t, ast.Compare) and len(t.ops) == 1 and isinstance(t.ops[0], ast.Is) and is_none_const(t.comparators[0]):
+        return t.left
+    return None
+
+
+def callee_last(c: ast.Call) -> str:
+    return _callee_last(c)
+
+
+def returns_in(fnode) -> List[ast.Return]:
+    out = []
+    stack = list(fnode.body)
+    while stack:
+        n = stack.pop()
+        if isinstance(n, (ast.FunctionDef, ast.AsyncFunctionDef, ast.ClassDef, ast.Lambda)):
+            continue
+        if isinstance(n, ast.Return):
+            out.append(n)
+        stack.extend(ast.iter_child_nodes(n))
+    out.sort(key=lambda r: (r.lineno, r.col_offset))
+    return out
+
+
+def guard_atoms_at(S: Sub, at: int) -> List[Tuple[List[ast.expr], bool, ast.AST]]:
+    """[(alternatives of the atom evaluated at its own test, polarity, atom)] dominating CFG node `at`"""
+    out = []
+    for t, pol in S.guards(at):
+        tn = S.node_of(t)
+        out.append((S.alts(t, tn) if tn is not None else [t], pol, t))
+    return out
